@@ -876,13 +876,13 @@ class Interp:
             for x in e.values:
                 last = self.eval(x, env)
                 if not self.truth(last, x):
-                    return last if isinstance(last, bool) else False
+                    return last  # python semantics: the operand itself
             return last
         last = False
         for x in e.values:
             last = self.eval(x, env)
             if self.truth(last, x):
-                return last if isinstance(last, bool) else True
+                return last
         return last
 
     def e_BinOp(self, e, env):
